@@ -29,6 +29,14 @@ Audit extensions (classes of inputs inside the quantifier that the first version
   that are free of range ties, with a rounding-error tolerance and a tie margin computed per case;
 * every call of the implementation is wrapped: an exception is a failing clause, never a harness crash.
 
+Round-5 extension: (a) the plotting data paths with SEVERAL series of different amplitude / level in one call
+(`TsDB.plot_cycle_range`, `TsDB.plot_cycle_rangemean` with a list of names in a seeded order; `TimeSeries.plot_cycle_range` /
+`plot_cycle_rangemean` of several series into one figure; number of bins, default bins, bin width, bar width options): the data handed
+to `matplotlib.pyplot.bar` / `scatter` are captured and the scaling / shift clause is evaluated PER SERIES against the data drawn for
+x in the same call.  (b) long records (1001 … 2600 samples in the quick tier, up to 20000 in the thorough tier; also as the part of a
+longer record selected by a time window) that start / end on a falling or rising flank with the first / last sample repeated, through
+`TimeSeries.rfc()` and the GUI wrapper: affine, negation and refinement clauses (the refinement repeats the first / last sample).
+
 Round-4 extension (time grids): the property quantifies over series, and a time series object need not have a constant time step.
 Every entry point is therefore also evaluated on seeded NON-UNIFORM time grids (steps dt*m_i, m_i cycling through a seeded pattern),
 and the refinement clause is additionally evaluated with the redundant samples stamped IN BETWEEN the time stamps of their
@@ -56,6 +64,11 @@ RULE = ("seeded random dyadic series (plateaus, ties, random walks) and all word
         "model correspondence of the refined series with end points; "
         "separately seeded generic float series (gaussian / decimal data) with inexact unit conversions a*x+b under a per-case "
         "rounding tolerance, skipped unless every slope and every pair of candidate ranges is separated by 100x that tolerance; "
+        "separately seeded: 16 (thorough 300) plotting calls drawing 2..4 series a_k*x+b_k (a_k = 2^j, j in -3..5) of one seeded series "
+        "in ONE call of TsDB.plot_cycle_range / plot_cycle_rangemean or of the TimeSeries methods into one figure (n in 2..50, default, "
+        "or a bin width with shifts only), per-series scaling clause on the captured bar / scatter data; 3 (thorough 37) long "
+        "records of 1001..2600 (thorough ..20000) samples starting / ending on falling / rising flanks with repeated end samples, "
+        "clauses through rfc() plain / windowed / inside a longer record / GUI wrapper; "
         "non-trivial = original series has at least one cycle; distinct by series")
 
 
@@ -424,6 +437,223 @@ def project(name, tab):
     if name.startswith("app."):
         return sorted((r, c) for r, _, c in tab)
     return sorted(tab)
+
+# ---- round-5 extension: several series of different amplitude in ONE plotting call ----------------------------------------------
+PLOT_CALLS = ("TsDB.plot_cycle_range(names=[several series])", "TsDB.plot_cycle_rangemean(names=[several series])",
+              "TimeSeries.plot_cycle_range() of several series into one figure",
+              "TimeSeries.plot_cycle_rangemean() of several series into one figure")
+
+
+class _PlotCapture(object):
+    """records the data handed to matplotlib.pyplot.bar / scatter (and hands them on, so the figure is drawn as usual)"""
+
+    def __enter__(self):
+        import matplotlib.pyplot as plt
+        self.plt, self.bar, self.scatter, self.data = plt, plt.bar, plt.scatter, {}
+
+        def bar(x, height, width=0.8, *args, **kwargs):
+            self.data.setdefault(kwargs.get("label"), []).append(
+                ("bar", np.array(x, dtype=float), np.array(height, dtype=float), float(width)))
+            return self.bar(x, height, width, *args, **kwargs)
+
+        def scatter(x, y, s=None, *args, **kwargs):
+            self.data.setdefault(kwargs.get("label"), []).append(
+                ("scatter", np.array(y, dtype=float), np.array(x, dtype=float), np.array(s, dtype=float) / 2.0))
+            return self.scatter(x, y, s, *args, **kwargs)
+        plt.bar, plt.scatter = bar, scatter
+        return self
+
+    def __exit__(self, *exc):
+        self.plt.bar, self.plt.scatter = self.bar, self.scatter
+        return False
+
+
+def plot_data(callname, s, t0, dt, maps, order, opts):
+    """the bar / scatter data drawn for each of the series a_k*x+b_k (k = 0, 1, …; named s0, s1, …) by ONE call of a TsDB
+    plotting method on a database holding all of them (requested in the order `order`), or by one TimeSeries plotting call per
+    series into the same figure.  Returns [data of s0, data of s1, …], each ("bar", ranges, counts, width) or ("scatter", ranges,
+    means, counts) or 'err:…'"""
+    from qats import TimeSeries, TsDB
+    import matplotlib.pyplot as plt
+    ta = grid_times(len(s), t0, dt)
+    tss = [TimeSeries("s%d" % k, ta.copy(), np.array(fl([a * v + b for v in s]))) for k, (a, b) in enumerate(maps)]
+    kw = dict((k, (float(v) if k in ("w", "bw") else int(v))) for k, v in opts.items())
+    num = 9940
+    try:
+        with _PlotCapture() as cap:
+            if callname.startswith("TsDB."):
+                db = TsDB()
+                for one in tss:
+                    db.add(one)
+                f = db.plot_cycle_range if "plot_cycle_range(" in callname else db.plot_cycle_rangemean
+                f(names=["s%d" % k for k in order], show=False, num=num, **kw)
+            else:
+                for k in order:
+                    f = tss[k].plot_cycle_range if "plot_cycle_range(" in callname else tss[k].plot_cycle_rangemean
+                    f(show=False, num=num, **kw)
+    finally:
+        plt.close(num)
+    out = []
+    for k in range(len(tss)):
+        d = cap.data.get("s%d" % k, [])
+        out.append(d[0] if len(d) == 1 else "err:%d data sets drawn for the series" % len(d))
+    return out
+
+
+def _same_arr(p, q):
+    return p.shape == q.shape and bool(np.array_equal(p, q, equal_nan=True))
+
+
+def _show_plot(d):
+    return d if isinstance(d, str) else [d[0]] + [v.tolist() if isinstance(v, np.ndarray) else v for v in d[1:]]
+
+
+def plot_multi_clauses(callname, s, t0, dt, maps, order, opts, report):
+    """scaling / shift clause PER SERIES on the data one plotting call draws for x and a_k*x+b_k (a_k = 2^j > 0, so the bin edges
+    `max range * i / n`, the bin mid points and the bar widths scale exactly; with a bin width `w` given only shifts are used;
+    with re-binned means only scalings).  Returns the data of x (None if the call raised)."""
+    inp = dict(kind="plot-multi", call=callname, series=[str(v) for v in s], t0=str(t0), dt=str(dt),
+               maps=[[str(a), str(b)] for a, b in maps], order=list(order), opts=dict((k, str(v)) for k, v in opts.items()))
+    got = call(plot_data, callname, s, t0, dt, maps, order, opts)
+    if isinstance(got, str):
+        # a series without cycles (or with a single bin) cannot be drawn by these methods: recorded observation, no clause
+        alone = call(plot_data, callname, s, t0, dt, maps[:1], [0], opts)
+        if not isinstance(alone, str) and not isinstance(alone[0], str):
+            report("%s raises although the first series alone is drawn" % callname, inp, "data of every series", got, "plot-multi")
+        return None
+    ref = got[0]
+    for k in range(1, len(maps)):
+        a, b = maps[k]
+        if isinstance(ref, str) or isinstance(got[k], str):
+            ok, exp = ref == got[k], ref
+        elif ref[0] == "bar":
+            exp = ("bar", float(a) * ref[1], ref[2], float(a) * ref[3])
+            ok = got[k][0] == "bar" and _same_arr(exp[1], got[k][1]) and _same_arr(exp[2], got[k][2]) and exp[3] == got[k][3]
+        else:
+            exp = ("scatter", float(a) * ref[1], float(a) * ref[2] + float(b), ref[3])
+            ok = got[k][0] == "scatter" and all(_same_arr(exp[i], got[k][i]) for i in (1, 2, 3))
+        if not ok:
+            report("%s: the data drawn for a*x+b (a = %s, b = %s; series s%d of the call) are those drawn for x (series s0 of the "
+                   "same call) with ranges%s scaled by a%s, same counts" % (
+                       callname, a, b, k, " and bar width" if "range(" in callname else "",
+                       ", means a*m+b" if "rangemean" in callname else ""),
+                   dict(inp, failing_series=k), _show_plot(exp), _show_plot(got[k]), "plot-multi")
+    return ref
+
+
+def gen_plot_case(rng, pool, callname=None):
+    """a seeded series with cycles, 1..3 further series of other amplitude / level, a seeded request order and option set"""
+    s = rng.choice(pool)
+    callname = callname or rng.choice(PLOT_CALLS)
+    binned = rng.random() < (0.5 if "rangemean" in callname else 1.0)
+    opts = {}
+    if binned:
+        r = rng.random()
+        if r < 0.7:
+            opts["n"] = rng.choice([2, 3, 5, 8, 8, 16, 50])
+        elif r < 0.8:
+            pass                                            # the default number of bins (200; rangemean: unbinned)
+        else:
+            # a bin width in proportion to the spread of the samples (at most some 40 bins whatever the unit of the series)
+            opts["w"] = _spread(s) * rng.choice([Fraction(1, 2), Fraction(1, 4), Fraction(3, 16), Fraction(1, 16)])
+        if "plot_cycle_range(" in callname and rng.random() < 0.3:
+            opts["bw"] = rng.choice([Fraction(1, 2), Fraction(1, 4)])
+    maps = [(Fraction(1), Fraction(0))]
+    for _ in range(rng.choice([1, 2, 2, 3])):
+        a = Fraction(1) if "w" in opts else Fraction(2) ** rng.choice([-3, -2, -1, 1, 1, 2, 3, 5])
+        b = Fraction(0) if ("rangemean" in callname and binned) else Fraction(rng.choice([0, 0, 3, -5, 16, Fraction(1, 2)]))
+        if not (exact64(s) and exact64([a * v + b for v in s])):
+            b = Fraction(0)                                 # (a scaling by 2^j alone is exact whatever the samples are)
+        maps.append((a, b))
+    order = list(range(len(maps)))
+    rng.shuffle(order)
+    t0, dt = Fraction(rng.choice([0, 10, -3])), Fraction(rng.choice([1, 2, Fraction(1, 2)]))
+    return callname, s, t0, dt, maps, order, opts
+
+
+# ---- round-5 extension: long records with repeated samples at the ends ----------------------------------------------------------
+def _e_twin_inner(x, t0, dt):
+    """the series inside a longer record, selected by the time window from its first to its last sample"""
+    from qats import TimeSeries
+    xa = np.array(fl(x))
+    ta = grid_times(xa.size, t0, dt)
+    h = float(_nominal(dt))
+    pre, post = [7.5, -2.25, 4.0], [-10.0, 0.0]
+    if xa.size:     # (a neighbour outside the window equal to the first sample: a plateau that the window cuts)
+        pre[-1] = float(xa[0])
+    tt = np.concatenate((ta[0] - h * np.arange(len(pre), 0, -1), ta, ta[-1] + h * np.arange(1, len(post) + 1)))
+    ts = TimeSeries("signal", tt, np.concatenate((pre, xa, post)))
+    return _norm(ts.rfc(twin=(float(ta[0]), float(ta[-1]))))
+
+
+LONG_ENTRIES = {"TimeSeries.rfc(twin=[the series inside a longer record])": _e_twin_inner}
+ALL_ENTRIES.update(LONG_ENTRIES)
+LONG_NAMES = ["TimeSeries.rfc()", "TimeSeries.rfc(twin=whole series)", "TimeSeries.rfc(twin=[the series inside a longer record])",
+              "TimeSeries.rfc() after earlier calls on the same object / on a second object of the same arrays",
+              "app.funcs.calculate_rfc(nbins=None)", "app.funcs.calculate_rfc(twin=None, nbins=None)"]
+
+
+def gen_long(seed, n, start, end, p0, p1, q0, q1):
+    """a record of n samples (multiples of 1/8 in [-50, 50], some interior plateaus) that starts on a falling / rising flank
+    (`start`) with its first sample p0 times and ends on a flank `end` with its last sample p1 times; and its refinement: the
+    first / last sample q0 / q1 more times, a few interior repeats and in-between samples.  Everything from random.Random(seed)."""
+    import random
+    r = random.Random("C03 long %s" % seed)
+    m = max(n - p0 - p1, 4)
+    body = [Fraction(r.randint(-320, 320), 8)]
+    while len(body) < m:
+        if r.random() < 0.08:
+            body.append(body[-1])
+        else:
+            body.append(Fraction(r.randint(-320, 320), 8))
+    first = body[0] + (Fraction(r.randint(1, 80), 8) if start == "fall" else -Fraction(r.randint(1, 80), 8))
+    last = body[-1] + (-Fraction(r.randint(1, 80), 8) if end == "fall" else Fraction(r.randint(1, 80), 8))
+    s = [first] * p0 + body + [last] * p1
+    t2, at2 = [], []
+    for i, v in enumerate(s):
+        t2.append(v)
+        at2.append((i, Fraction(0)))
+        k = q0 if i == 0 else q1 if i == len(s) - 1 else (1 if r.random() < 0.02 else 0)
+        for j in range(k):
+            if 0 < i < len(s) - 1 and r.random() < 0.5:
+                lam = Fraction(r.choice([1, 2, 3]), 4)
+                t2.append(v + lam * (s[i + 1] - v))
+                at2.append((i, lam))
+            else:
+                t2.append(v)
+                at2.append((i, Fraction(j + 1, k + 1)))
+    return s, t2, at2
+
+
+def _rows_diff(e, g):
+    """(rows only in the expected table, rows only in the observed table) of two long tables, as short strings"""
+    if not (isinstance(e, list) and isinstance(g, list)):
+        return str(e)[:400], str(g)[:400]
+    from collections import Counter
+    ce, cg = Counter(map(tuple, e)), Counter(map(tuple, g))
+    only_e, only_g = sorted((ce - cg).elements()), sorted((cg - ce).elements())
+    return ("%d rows; not among the observed: %s" % (len(e), [list(r) for r in only_e[:8]]),
+            "%d rows; not among the expected: %s" % (len(g), [list(r) for r in only_g[:8]]))
+
+
+def long_clauses(spec, names, report, disagree=None, timed=False):
+    """the clauses through the entry points `names` on the long record described by `spec` (see gen_long)"""
+    s, t2, at2 = gen_long(spec["gen_seed"], spec["length"], spec["start"], spec["end"], spec["p0"], spec["p1"], spec["q0"], spec["q1"])
+    a, b = frac(spec["a"]), frac(spec["b"])
+    t0, dt = frac(spec["t0"]), frac(spec["dt"])
+    base = call(table, s)
+    for name in names:
+        def rep(o, i, e, g, c, **kw):
+            # the record is regenerated from its description on replay (thousands of samples are not written out)
+            i = dict((k, v) for k, v in i.items() if k not in ("series", "refined", "refined_at"))
+            report(o + " [long record: %d samples, first sample %d x then a %s, last sample %d x after a %s; refined: first / last "
+                   "sample %d / %d more times]" % (len(s), spec["p0"], spec["start"], spec["p1"], spec["end"], spec["q0"], spec["q1"]),
+                   dict(i, kind="long-record", spec=spec, head=[str(v) for v in s[:6]], tail=[str(v) for v in s[-6:]]),
+                   *_rows_diff(e, g), c, **kw)
+        eb = entry_clauses(name, s, t0, dt, a, b, t2, rep, factors=(2,), at2=at2 if timed else None)
+        if disagree is not None and eb is not None and eb != project(name, base):
+            disagree(name, s, eb, base)
+    return s, base
 
 
 def pow2(a):
@@ -987,7 +1217,14 @@ def run(chk):
     import random
     grng = random.Random("C03 time grids %d" % chk.seed)     # own seeded stream: the choices below leave chk.rng's sequence as it was
     cases, forced, extra_sp, cgrid = [], [], [], {}
+    corpus_plots, corpus_long = [], []
     for c in core.load_corpus("C03"):
+        if c.get("kind") == "plot-multi":
+            corpus_plots.append(c)
+            continue
+        if c.get("kind") == "long-record":
+            corpus_long.append(c)
+            continue
         if "grid" in c:
             cgrid[len(cases)] = tuple(frac(v) for v in c["grid"])
         cases.append([frac(v) for v in c["series"]])
@@ -1176,6 +1413,54 @@ def run(chk):
                 chk.disagree("rf.count(refined, endpoints)", dict(series=[str(v) for v in tr]), str(mt), str(it))
         elif sorted(mt) != it:
             chk.disagree("rf.count(refined, endpoints)", dict(series=[str(v) for v in tr]), str(mt)[:300], str(it)[:300])
+    # ---- several series of different amplitude / level drawn by ONE plotting call: the clauses per series --------------------
+    prng = random.Random("C03 plots and long records %d" % chk.seed)     # own seeded stream (chk.rng's sequence stays as it was)
+    pool = [s for s, _, _, _ in tmeta if 6 <= len(s) <= 60 and len(set(s)) > 3]
+    pcases = [(c["call"], [frac(v) for v in c["series"]], frac(c.get("t0", "0")), frac(c.get("dt", "1")),
+               [(frac(p), frac(q)) for p, q in c["maps"]], [int(v) for v in c["order"]],
+               dict((k, frac(v)) for k, v in c.get("opts", {}).items())) for c in corpus_plots]
+    pcases += [gen_plot_case(prng, pool, PLOT_CALLS[j % 4]) for j in range(16 if chk.quick else 300)] if pool else []
+    for pc in pcases:
+        chk.count("plot-multi:" + pc[0])
+        ref = plot_multi_clauses(*pc, report=rep)
+        chk.dist("plot-multi: %d series in one call, %s" % (len(pc[4]), "not drawable (no cycles)" if ref is None else
+                                                             "bin width given" if "w" in pc[6] else "number of bins"))
+        if ref is not None:
+            chk.nontriv(("plot-multi",) + tuple(pc[1]))
+    # ---- long records (more than 1000 samples, also after a time window) with repeated samples at the ends -----------------
+    lcases = [dict(c) for c in corpus_long]
+    lengths = ([1001, prng.randint(1002, 1100), prng.randint(1200, 2600)] if chk.quick else
+               [1001, 1002, 1024, 1025, 2048, 4097, 10001] + [prng.randint(1001, 1100) for _ in range(8)]
+               + [prng.randint(1100, 6000) for _ in range(16)] + [prng.randint(10000, 20000) for _ in range(2)]
+               + [prng.randint(900, 1000) for _ in range(4)])
+    flanks = [("fall", "fall"), ("rise", "fall"), ("fall", "rise"), ("rise", "rise")]
+    prng.shuffle(flanks)
+    for j, n in enumerate(lengths):
+        st, en = flanks[j % 4]
+        p0, p1 = prng.choice([(1, 1), (2, 1), (1, 3), (2, 2), (4, 1)])
+        q0, q1 = prng.choice([(1, 0), (0, 1), (1, 1), (2, 3), (7, 1)])
+        a = Fraction(prng.choice([2, 4, 1, 3]), prng.choice([1, 2, 4]))
+        lcases.append(dict(gen_seed="%d/%d" % (chk.seed, j), length=n, start=st, end=en, p0=p0, p1=p1, q0=q0, q1=q1,
+                           a=str(a), b=str(prng.choice([0, 5, -3, 16])), t0=str(prng.choice([0, 10, -3])),
+                           dt=str(prng.choice([Fraction(1), Fraction(1, 2), Fraction(2)]))))
+
+    def ldis(name, s, eb, base):
+        chk.disagree("entry==count_cycles", dict(kind="long-record", entry=name, length=len(s)),
+                     str(show(project(name, base)))[:300], str(show(eb))[:300])
+    for j, spec in enumerate(lcases):
+        spec.pop("note", None)
+        spec.pop("kind", None)
+        names = spec.pop("entries", None) or (LONG_NAMES[:3] if j % 2 == 0 or not chk.quick else
+                                              [LONG_NAMES[0], prng.choice(LONG_NAMES[2:])])
+        if not chk.quick and j % 3 == 0:
+            names = list(LONG_NAMES)
+        for name in names:
+            chk.count("long record, entry:" + name)
+        s, base = long_clauses(spec, names, rep, disagree=ldis, timed=not chk.quick or j == 0)
+        chk.dist("long record: %s samples, starts on a %s, ends on a %s" % (
+            "<= 1000" if len(s) <= 1000 else "1001-1100" if len(s) <= 1100 else "> 1100", spec["start"], spec["end"]))
+        if base and not isinstance(base, str):
+            chk.nontriv(("long", spec["gen_seed"], spec["length"]))
     # ---- inexact unit conversions on generic float series free of range ties ----------------------------------------------
     for _ in range(600 if chk.quick else 3000):
         xs, a, b, t2 = gen_generic(rng)
@@ -1228,6 +1513,15 @@ def replay(rp):
         print("replay: %d failing clause(s)" % len(bad))
         return 1 if bad else 0
     kind = inp.get("kind")
+    if kind == "plot-multi":
+        plot_multi_clauses(inp["call"], [frac(v) for v in inp["series"]], frac(inp["t0"]), frac(inp["dt"]),
+                           [(frac(p), frac(q)) for p, q in inp["maps"]], [int(v) for v in inp["order"]],
+                           dict((k, frac(v)) for k, v in inp["opts"].items()), report)
+        return done()
+    if kind == "long-record":
+        long_clauses(inp["spec"], [inp["entry"]], report, timed=True,
+                     disagree=lambda name, s, eb, base: print("entry point differs from count_cycles on the raw samples"))
+        return done()
     if kind == "generic":
         generic_clauses([float.fromhex(v) for v in inp["series"]], float.fromhex(inp["a"]), float.fromhex(inp["b"]),
                         inp["spelling"], inp["endpoints"], [float.fromhex(v) for v in inp["refined"]], report,
